@@ -290,12 +290,24 @@ directory only under the guard "this call took the lock".
 theorem refused_start_keeps_directory :
     Gen.c15RefusedStartRemovesDir_extracted = true ∧ Gen.c15RefusedStartRemovesDir = false := by decide
 
+/-- Regenerated obligation (repair of the ignored lock-file create error): when the
+exclusive create of `_lock` fails with an error other than "exists", `Pipestance.Lock`
+RETURNS that error instead of logging it and going on (registering the handler, writing
+the file non-exclusively, returning nil).
+(False on a tree where it goes on: negative witness `lts_create_error_breaks_exclusion`.) -/
+theorem lock_create_error_is_returned :
+    Gen.c15LockCreateErrorIgnored_extracted = true ∧ Gen.c15LockCreateErrorIgnored = false := by decide
+
 open Martian.LockLTS in
 /-- Mutual exclusion for EVERY interleaving of attach attempts, unlocks, graceful
 and ungraceful deaths — `Lock()` calls may overlap arbitrarily — provided the
 operator removes `_lock` only when no process owns the pipestance: at most one
 process owns the pipestance, and while one does the lock file exists.
-(Without the operator assumption: `lts_rmLock_under_live_owner`.) -/
+(Without the operator assumption: `lts_rmLock_under_live_owner`.)  `disciplined` also
+excludes `acquireErr` — a lock-file create error that `Lock()` IGNORES; the repaired code
+returns such an error (`acquireFail`, allowed; obligation `lock_create_error_is_returned`,
+`lts_create_error_changes_nothing`), starts that are refused (`start`) or fail before
+`Lock()` (`startFail`) are allowed too.  Old code: `lts_create_error_breaks_exclusion`. -/
 theorem lts_mutual_exclusion (tr : List Act) (s : St)
     (h : run Gen.c15RegisterFirst Gen.c15RefusedStartRemovesDir disciplined init tr = some s) :
     s.holders.length ≤ 1 ∧ (s.holders ≠ [] → s.lockFile = true) := by
@@ -352,18 +364,32 @@ theorem lts_failed_start_removes_owners_lock :
   exact ⟨_, rfl, rfl⟩
 
 open Martian.LockLTS in
-/-- Negative witness for the second assumption of `lts_mutual_exclusion` (`disciplined`
+/-- Negative witness for the exclusion of `acquireErr` in `lts_mutual_exclusion` (`disciplined`
 excludes `acquireErr`): when the create of `_lock` fails with an error other than
 "exists", `Lock()` logs it, REGISTERS the signal handler and returns nil; if that
 process later dies through the handler path it removes the lock of whoever owns the
-pipestance by then, and a further mrp attaches.  (On the real code the callers of
-`Lock()` fail on the next operation — "Pipestance is in read only mode" — and
-`Unlock()`, which unregisters the handler, so the history does not arise through
-`ReattachToPipestance`; the harness checks exactly that on every run.) -/
+pipestance by then, and a further mrp attaches.  This was the code before the repair
+(obligation `lock_create_error_is_returned`).  (Through `ReattachToPipestance` the
+callers of `Lock()` then failed on the next operation — "Pipestance is in read only
+mode" — and `Unlock()`ed, which unregisters the handler; through `InvokePipeline` the
+start went on WITHOUT a lock file: reproduced by the start-race stream when a failing
+second starter removed the still-empty directory under the winner, ENOENT.) -/
 theorem lts_create_error_breaks_exclusion :
     ∃ s, run false false anything init [.acquireErr 1, .acquire 2, .register 2, .signal 1, .acquire 3] = some s
       ∧ s.holders = [3, 2] := by
   exact ⟨_, rfl, rfl⟩
+
+open Martian.LockLTS in
+/-- Under the regenerated fact the outcome "create fails with another error" of the code
+(`createErr Gen.c15LockCreateErrorIgnored p`) changes nothing in any state and is an
+action `disciplined` allows: `lts_mutual_exclusion` therefore covers every history of the
+repaired code in which lock-file creates fail with arbitrary errors; its exclusion of
+`acquireErr` excludes a behaviour the code no longer has. -/
+theorem lts_create_error_changes_nothing (s : St) (p : Nat) :
+    step Gen.c15RegisterFirst Gen.c15RefusedStartRemovesDir s (createErr Gen.c15LockCreateErrorIgnored p) = (s, false)
+    ∧ disciplined s (createErr Gen.c15LockCreateErrorIgnored p) = true := by
+  rw [lock_create_error_is_returned.2]
+  simp [createErr, step, Martian.LockLTS.disciplined]
 
 open Martian.LockLTS in
 /-- …and neither does the later death (graceful or not) of a process that does
